@@ -426,42 +426,19 @@ var hasTables = regexp.MustCompile(`, tables [1-9]`)
 
 var quiet = slog.New(slog.NewTextHandler(io.Discard, nil))
 
-// Execute runs the case under a watchdog: a history of at most a few hundred store operations that does not finish in
-// 30 s means that a loop of the implementation does not terminate (reported by hx as a violation with this case as replay).
+// Execute: no deadline of its own. A loop of the implementation that does not terminate is found by hx's supervisor (no
+// progress for 180 s in the child process), an advance that yields more timers than were ever set by the deterministic
+// guard in the advance loops; a wall-clock watchdog here could turn a slow run on a loaded machine into a false alarm.
 func (e eng) Execute(mode string, c *hx.Case) (*hx.Result, error) {
-	type ret struct {
-		res *hx.Result
-		err error
-		pan any
+	switch {
+	case mode == "c10op" && getInt(c.Params, "batch", 1) > 1:
+		return e.executeCk(c)
+	case mode == "c10op":
+		return e.executeOp(c)
+	case getInt(c.Params, "scalein", 0) > 0:
+		return e.executeScaleIn(c)
 	}
-	ch := make(chan ret, 1)
-	go func() {
-		var r ret
-		defer func() {
-			if p := recover(); p != nil {
-				r.pan = p
-			}
-			ch <- r
-		}()
-		if mode == "c10op" && getInt(c.Params, "batch", 1) > 1 {
-			r.res, r.err = e.executeCk(c)
-		} else if mode == "c10op" {
-			r.res, r.err = e.executeOp(c)
-		} else if getInt(c.Params, "scalein", 0) > 0 {
-			r.res, r.err = e.executeScaleIn(c)
-		} else {
-			r.res, r.err = e.execute(mode, c)
-		}
-	}()
-	select {
-	case r := <-ch:
-		if r.pan != nil {
-			panic(r.pan)
-		}
-		return r.res, r.err
-	case <-time.After(30 * time.Second):
-		panic("watchdog: the case did not finish within 30 s (a TimerStore / AdvanceWatermark loop does not terminate)")
-	}
+	return e.execute(mode, c)
 }
 
 func (eng) execute(mode string, c *hx.Case) (*hx.Result, error) {
@@ -825,9 +802,11 @@ func (eng) executeOp(c *hx.Case) (*hx.Result, error) {
 	})
 	op.Logger = quiet
 	ctx, cancel := context.WithCancel(context.Background())
-	defer cancel()
-	done := make(chan error, 1)
-	go func() { done <- op.Start(ctx) }()
+	done := make(chan struct{})
+	go func() { defer close(done); op.Start(ctx) }()
+	// on every path the operator has stopped before the case is over (Start returns when its context is cancelled,
+	// whether or not it already ran); waited for without a deadline: hx's hang detector is the only clock
+	defer func() { cancel(); <-done }()
 	opSeq++
 	if err := op.HandleDeploy(ctx, &workerpb.DeployOperatorRequest{
 		Operators:       []*jobpb.NodeIdentity{{Id: "op1", Host: "h"}},
@@ -837,16 +816,17 @@ func (eng) executeOp(c *hx.Case) (*hx.Result, error) {
 	}, &embedded.RecordingSink{}); err != nil {
 		return nil, err
 	}
+	// HandleEvent returns after the operator's event loop has processed the event. "not ready" cannot occur after a
+	// successful HandleDeploy; should it, the send is repeated until it is accepted (the sleep only paces the polling,
+	// there is no give-up deadline that could drop a step the model still assumes).
 	send := func(sender string, ev *workerpb.Event) error {
-		var err error
-		for try := 0; try < 400; try++ {
-			err = op.HandleEvent(ctx, sender, ev)
+		for {
+			err := op.HandleEvent(ctx, sender, ev)
 			if err == nil || !strings.Contains(err.Error(), "not ready") {
 				return err
 			}
 			time.Sleep(time.Millisecond)
 		}
-		return err
 	}
 	ks := partitioning.NewKeySpace(16, 1)
 	var coqOps []string
@@ -913,11 +893,6 @@ func (eng) executeOp(c *hx.Case) (*hx.Result, error) {
 		}
 	}
 	op.Stop()
-	select {
-	case <-done:
-	case <-time.After(5 * time.Second):
-		return nil, fmt.Errorf("operator did not stop")
-	}
 	var obs []string
 	for _, out := range observed {
 		fs := make([]string, len(out))
